@@ -231,6 +231,7 @@ func runC18(c *Ctx) {
 		R.Fatal("only %d go statements found in service (anchor)", nGo)
 	}
 	c.handlerRoles(ri)
+	c.headerCopiesDeep()
 	// ---- frame headers are shared between a session and the first message: only the reader (before hand-over) and the
 	// writer may look inside one; the manager and API callers only pass the pointer on
 	{
@@ -554,4 +555,70 @@ func (c *Ctx) handlerRoles(ri *roleInfo) {
 		R.Fatal("%s: only %d invocations of Handler methods found in service (anchor)", rule, n)
 	}
 	R.Require(rule, 6, "")
+}
+
+// headerCopiesDeep: jt808.Header holds a pointer to its BodyProperty, and Header.Encode writes the body length and the
+// fragment flag through that pointer. A value copy of a header (h := *kept) that leaves the function - wrapped into a
+// message that is handed to another goroutine - still shares the BodyProperty with the header it was copied from: the
+// goroutine that keeps the original and the one that receives the copy both write it. Every whole-struct copy of a
+// Header in the service package that escapes must have its Property replaced before it does.
+func (c *Ctx) headerCopiesDeep() {
+	R := c.R
+	rule := "E5.header-copy"
+	R.Rules[rule] = "a value copy of a jt808.Header made in the service package that escapes the function (heap object: wrapped into a message, stored, sent) gets a Property of its own before it does: two headers never share one *BodyProperty, which Header.Encode writes"
+	isHeader := func(t types.Type) bool {
+		n, ok := t.(*types.Named)
+		return ok && n.Obj().Name() == "Header" && n.Obj().Pkg() != nil && strings.HasSuffix(n.Obj().Pkg().Path(), "protocol/jt808")
+	}
+	n := 0
+	for _, fn := range c.RepoFuncs("service") {
+		for _, b := range fn.Blocks {
+			for _, ins := range b.Instrs {
+				ld, isLd := ins.(*ssa.UnOp)
+				if !isLd || ld.Op != token.MUL || !isHeader(ld.Type()) {
+					continue
+				}
+				if _, fromLocal := ld.X.(*ssa.Alloc); fromLocal {
+					continue
+				}
+				for _, ref := range *ld.Referrers() {
+					st, isSt := ref.(*ssa.Store)
+					if !isSt || st.Val != ssa.Value(ld) {
+						continue
+					}
+					al, isAl := st.Addr.(*ssa.Alloc)
+					if !isAl || !al.Heap {
+						continue
+					}
+					n++
+					own := false
+					for _, r2 := range *al.Referrers() {
+						fa, isFA := r2.(*ssa.FieldAddr)
+						if !isFA {
+							continue
+						}
+						if _, name, _ := fieldNameOfAddr(fa); name != "Property" {
+							continue
+						}
+						for _, r3 := range *fa.Referrers() {
+							if s3, isS3 := r3.(*ssa.Store); isS3 && s3.Addr == ssa.Value(fa) {
+								if ok, _ := c.freshPerEvaluation(s3.Val, s3); ok {
+									own = true
+								}
+							}
+						}
+					}
+					stt, d := report.Discharged, ""
+					if !own {
+						stt, d = report.Violated, fmt.Sprintf("%s copies a Header by value at %s and lets the copy escape without giving it a BodyProperty of its own: the copy and the original share one *BodyProperty, which whoever encodes either of them writes (the reader keeps the original, the writer receives the copy)", shortFn(fn), c.P.RelPos(ld.Pos()))
+					}
+					R.Add(rule, shortFn(fn)+" / "+c.constructOf(fn, ld), c.P.RelPos(ld.Pos()), stt, d)
+				}
+			}
+		}
+	}
+	if n == 0 {
+		R.Add(rule, "service / no escaping value copy of a Header (all functions of the package examined)", "", report.Discharged, "")
+	}
+	R.Notes["escaping_header_copies"] = n
 }
